@@ -300,6 +300,52 @@ fn run_conc(args: &Args) -> ! {
         });
         (s, st)
     }
+    // short polynomials with large blowups: the LDE domain crosses the parallel threshold although the
+    // polynomial does not (n = 2..512, n * blowup in {512, 1024, 2048, 4096}), for thread counts up to 64
+    fn small_blowup<B: StarkField, E: FieldElement<BaseField = B>>(name: &str) -> (Sweep, rayon::ExploreStats) {
+        let off = B::GENERATOR;
+        let mut cases: Vec<(usize, usize, Vec<B>, Vec<E>, Vec<E>)> = vec![];
+        for ln in 1..=9u32 {
+            let n = 1usize << ln;
+            for lde in [512usize, 1024, 2048, 4096] {
+                if lde <= n {
+                    continue;
+                }
+                let b = lde / n;
+                let p = coeffs::<E>(n, &Coeffs::Counter);
+                let want = naive_eval(&p, &domain::<B>(lde, off));
+                cases.push((n, b, fft::get_twiddles::<B>(n), p, want));
+            }
+        }
+        let mut s = Sweep::new();
+        let st = rayon::explore(&[1, 2, 3, 4, 5, 8, 16, 32, 64], &[2, 4], 0, |tag| {
+            for (n, b, tw, p, want) in &cases {
+                s.evals += 1;
+                s.nontrivial += 1;
+                let key = format!("{name}/n={n}/blowup={b} [{tag}]");
+                match mck::catch(|| fft::evaluate_poly_with_offset(p, tw, off, *b)) {
+                    Err(pn) => s.fail(format!("panic:{name}:evaluate_poly_with_offset:{}", pn.location), key.clone(), format!("{name} evaluate_poly_with_offset panicked at {} ({}) for {key}", pn.location, pn.message)),
+                    Ok(g) if &g != want => s.fail(format!("wrong:{name}:evaluate_poly_with_offset:concurrent"), key.clone(), format!("{name} evaluate_poly_with_offset differs from the naive evaluation for {key}")),
+                    _ => {},
+                }
+            }
+        });
+        (s, st)
+    }
+    let extra = [small_blowup::<B64, B64>("f64"), small_blowup::<B64, QuadExtension<B64>>("f64^2")];
+    let (mut xe, mut xs, mut xn, mut xt) = (0, 0, 0, 0);
+    for (s, st) in extra {
+        xe += s.evals;
+        xs += st.schedules;
+        xn += st.nontrivial;
+        xt += st.task_runs;
+        report.violations(s.viol);
+        for (c, n) in s.more {
+            report.count_more(&c, n);
+        }
+    }
+    report.part("conc build: evaluate_poly_with_offset on short polynomials (2..512 coefficients) with blowups that take the LDE domain to 512..4096 points, T in {1,2,3,4,5,8,16,32,64}", xe, xe,
+        json!({"schedules": xs, "nontrivial_schedules": xn, "task_executions": xt}));
     let jobs: Vec<(usize, u32)> = (0..3).flat_map(|k| logs.iter().map(move |l| (k, *l))).collect();
     let outs = mck::par_map(jobs.len(), |j| match jobs[j].0 {
         0 => one::<B64, B64>("f64", jobs[j].1, naive_cap, &ts_all, &ts_dev),
